@@ -15,7 +15,7 @@ CONSTANTS AtomId,      \* identities the harness can create
           FreshAP,     \* identities for attachment points created by remove_substituent
           ElemOf, LabelOf, Valence,   \* per identity / per element
           QGiven,      \* identities whose add_atom call passes a charge
-          MaxLive, MaxView, MaxPar, HasCharges, Deviations
+          MaxLive, MaxView, MaxPar, WithNew, HasCharges, Deviations
 VARIABLES atoms,    \* Seq(identity): the atom list
           bonds,    \* set of {x, y}
           dbl,      \* subset of bonds: pairs with two bond objects
@@ -55,6 +55,15 @@ AddAtom(a, withq) ==
   /\ chg' = [chg EXCEPT ![a] = IF withq THEN "q" ELSE IF "NoneCharge" \in Deviations THEN "nonnumeric" ELSE "zero"]
   /\ UNCHANGED <<bonds, dbl, nfresh, nap>>
   /\ Note([act |-> "add_atom", a |-> a, q |-> withq], "ok")
+
+(* mol.new_atom(element, coord=..., label=...): the atom object is created inside the library and added with its coordinate *)
+NewAtom(a) ==
+  /\ WithNew /\ a \in AtomId \ Live /\ Len(atoms) < MaxLive
+  /\ atoms' = Append(atoms, a) /\ coord' = [coord EXCEPT ![a] = Given(a)]
+  /\ chg' = [chg EXCEPT ![a] = IF "NoneCharge" \in Deviations THEN "nonnumeric" ELSE "zero"]
+  /\ UNCHANGED <<bonds, dbl, nfresh, nap>>
+  \* a NEW atom object now stands for identity a: a view that was made of the old, deleted object is of no use any more
+  /\ NoteV([act |-> "new_atom", a |-> a], "ok") /\ view' = IF a \in view THEN {} ELSE view
 
 (* mol.append_atom(atom): adoption without a coordinate *)
 AppendAtom(a) ==
@@ -202,7 +211,7 @@ ViewTranslate ==
   /\ view' = {} /\ UNCHANGED <<atoms, bonds, dbl, chg, nfresh, nap>>
   /\ NoteV([act |-> "view_translate", S |-> view], "ok")
 
-Next == \/ \E a \in AtomId : AddAtom(a, a \in QGiven) \/ AppendAtom(a) \/ DelAtomObj(a)
+Next == \/ \E a \in AtomId : AddAtom(a, a \in QGiven) \/ NewAtom(a) \/ AppendAtom(a) \/ DelAtomObj(a)
         \/ \E i, j \in 1..MaxLive : Connect(i, j)
         \/ \E x, y \in AtomId : AppendBond(x, y)
         \/ \E x, y \in AllId : AppendBondPar(x, y)
